@@ -6,18 +6,18 @@ CONSTANTS
   FutureSpan = 3
   Limit = 3
   Window = 4
-  MaxRound = 3
-  MaxSnaps = 8
+  MaxRound = 4
+  MaxSnaps = 9
   MaxEarly = 1
-  Late = {}
-  MaxPub = 1
-  MaxAhead = 0
+  Late = {3}
+  MaxPub = 2
+  MaxAhead = 1
   Interleave = FALSE
-  Faults = FALSE
+  Faults = TRUE
   RefChoice = FALSE
-  RemoteAnytime = FALSE
-  Eager = TRUE
-  Track = TRUE
+  RemoteAnytime = TRUE
+  Eager = FALSE
+  Track = FALSE
 VIEW View
-INVARIANT PassBound4
+ACTION_CONSTRAINT Emit
 CHECK_DEADLOCK FALSE
